@@ -8,6 +8,7 @@
 //@ replace BinInputStream_readBytes
 //@ entry h_refreshRawBuffer
 //@ note stream contract S_iface (assumed for every BinInputStream; proved for BinMemInputStream in its own unit): readBytes returns r <= maxToRead, writes nothing outside toFill[0..maxToRead), may throw; the signature is taken from BinMemInputStream::readBytes (the base declaration is pure virtual)
+//@ note ghost STREAM_SEQ counts stream reads and is assumed not to wrap (fewer than 2^64 reads)
 //@ note the stream contract lets the stream scribble on toFill[r..maxToRead) too: a weaker assumption than "writes only toFill[0..r)", hence a stronger theorem
 #define VERIF_DEFINE_GHOSTS
 #include "verif_prelude.h"
@@ -17,6 +18,8 @@
 XMLSize_t GR;
 /* ghost: what the stream returned (written by the stream contract only) */
 XMLSize_t STREAM_R;
+/* ghost: number of stream reads so far (written by the stream contract only; assumed not to wrap) */
+XMLSize_t STREAM_SEQ;
 struct BinInputStream { char opaque; };
 
 /*@extract src/xercesc/util/BinMemInputStream.cpp BinMemInputStream::readBytes
@@ -28,8 +31,8 @@ __CPROVER_requires(!verif_thrown)
 __CPROVER_requires(maxToRead == 0 || __CPROVER_w_ok(toFill, maxToRead))
 /* call-site strengthening: w_ok only sees the enclosing object SELF, so pin the slice to the member array */
 __CPROVER_requires(__CPROVER_same_object(toFill, fRawByteBuf) && __CPROVER_POINTER_OFFSET(toFill) - OFS_XMLReader_fRawByteBuf + maxToRead <= sizeof(fRawByteBuf))
-__CPROVER_assigns(__CPROVER_object_upto(toFill, maxToRead), STREAM_R, verif_thrown, verif_throw_type, verif_throw_code)
-__CPROVER_ensures(__CPROVER_return_value <= maxToRead && STREAM_R == __CPROVER_return_value)
+__CPROVER_assigns(__CPROVER_object_upto(toFill, maxToRead), STREAM_R, STREAM_SEQ, verif_thrown, verif_throw_type, verif_throw_code)
+__CPROVER_ensures(__CPROVER_return_value <= maxToRead && STREAM_R == __CPROVER_return_value && STREAM_SEQ > __CPROVER_old(STREAM_SEQ))
 @*/
 
 /*@extract src/xercesc/internal/XMLReader.cpp XMLReader::refreshRawBuffer
